@@ -71,6 +71,15 @@ def modify(atoms, mod):
     if mod.get("serial_shift"):
         for a in out:
             a["serial"] += mod["serial_shift"]
+    if mod.get("later_models_shift"):
+        # ensembles whose atom ids / residue numbers run on from model to model: only the later models exceed a limit
+        first = min(a["model"] for a in out)
+        for a in out:
+            if a["model"] != first:
+                if mod["later_models_shift"] == "serial":
+                    a["serial"] += 100000 * (a["model"] - first)
+                else:
+                    a["resseq"] += 10000 * (a["model"] - first)
     return out
 
 
@@ -449,7 +458,7 @@ def classify(case):
     atoms = modify(case["atoms"], case.get("mod", {}))
     labs = []
     mod = case.get("mod", {})
-    for k in ("long_chains", "number_shift", "serial_shift", "interleave", "model_chains"):
+    for k in ("long_chains", "number_shift", "serial_shift", "interleave", "model_chains", "later_models_shift"):
         if mod.get(k):
             labs.append(k)
     if mod.get("long_chains") and mod.get("long_only"):
@@ -477,6 +486,7 @@ def st_cases():
         "interleave": st.booleans(),
         "long_only": st.sampled_from([0, 0, 1, 2]),
         "model_chains": st.sampled_from([False, False, True]),
+        "later_models_shift": st.sampled_from(["", "", "serial", "number"]),
     })
     select = st.one_of(st.none(), st.tuples(st.sampled_from(["model", "groupby-model", "chain", "chains-alternate"]), st.integers(0, 3)).map(list))
     return st.fixed_dictionaries({"atoms": atomtab.st_tables(max_residues=4, max_atoms=5), "mod": mod, "null": st.sampled_from(["?", "."]),
